@@ -421,3 +421,4 @@ def _more():
 
 UNITS = UNITS + _more()
 from props.c15_ext2 import UNITS as _U2; UNITS = UNITS + _U2
+from props.c15_ext3 import UNITS as _U3; UNITS = UNITS + _U3
